@@ -554,7 +554,7 @@ pub fn shrink(f: ScenarioFn, cfg: &Cfg, start: Vec<u64>, sig: &(String, String, 
     while progress && execs < budget_execs && t0.elapsed().as_secs_f64() < budget_s {
         progress = false;
         // 2. delete chunks
-        for &k in &[16usize, 8, 4, 2, 1] {
+        for &k in &[64usize, 32, 16, 8, 4, 2, 1] {
             let mut i = 0;
             while i + k <= best.len() {
                 let mut cand = best.clone();
